@@ -73,6 +73,16 @@ def branch_divider(value):
     return [{'p': value['p'], 'q': 0}, {'p': 0, 'q': value['q']}]
 
 
+def branch_config_divider(value, config):
+    # branch-level divider given as a dictionary with a config
+    if not isinstance(value, dict):
+        # not the branch's state: remembered and claimed below
+        CTX['bad_divider_arg'] = repr(value)
+        return [{}, {}]
+    return [{'p': value['p'] + config['k'], 'q': 0},
+            {'p': 0, 'q': value['q']}]
+
+
 def schema():
     return {'s': {
         'set': {'_default': 0},
@@ -91,6 +101,9 @@ def schema():
         'mut': {'_default': {}, '_updater': 'dict_value'},
         'br': {'_divider': branch_divider,
                'p': {'_default': 0}, 'q': {'_default': 0}},
+        'br2': {'_divider': {'divider': branch_config_divider,
+                             'config': {'k': 2}},
+                'p': {'_default': 0}, 'q': {'_default': 0}},
     }}
 
 
@@ -209,7 +222,8 @@ def part_store(ctx, cfg):
         'set': vals['set'], 'split': split_v, 'zero': vals['zero'],
         'setv': vals['setv'], 'nul': vals['nul'], 'sd': dict(sd),
         'topo': vals['topo'], 'other': vals['other'], 'conf': vals['conf'],
-        'mut': mut, 'br': {'p': vals['p'], 'q': vals['q']}}}
+        'mut': mut, 'br': {'p': vals['p'], 'q': vals['q']},
+        'br2': {'p': vals['q'], 'q': vals['p']}}}
     env_vol = [6, 3][ctx.choice('ev', 2)]
     env_lab = ctx.int('v', -9, 9)
     mother_state['env'] = {'vol': env_vol, 'lab': env_lab}
@@ -282,6 +296,8 @@ def part_store(ctx, cfg):
     sh += share('conf', vals['conf'] + 5, vals['conf'])
     sh += [EQ(s0['br']['p'], vals['p']), EQ(s0['br']['q'], 0),
            EQ(s1['br']['p'], 0), EQ(s1['br']['q'], vals['q'])]
+    sh += [EQ(s0['br2']['p'], vals['q'] + 2), EQ(s0['br2']['q'], 0),
+           EQ(s1['br2']['p'], 0), EQ(s1['br2']['q'], vals['p'])]
     sh += [EQ(s0['other'], vals['other']), EQ(s1['other'], vals['other'])]
     # split_dict: a partition of the keys with the mother's values
     k0, k1 = set(s0['sd']), set(s1['sd'])
@@ -295,6 +311,9 @@ def part_store(ctx, cfg):
         ctx.claim('C11.conserved', s0['split'] + s1['split'] == split_v
                   and abs(s0['split'] - s1['split']) <= 1, sig='conserved-1',
                   info=info)
+    ctx.claim('C11.shares', 'bad_divider_arg' not in CTX,
+              sig='branch-divider-argument',
+              info=lambda: dict(received=CTX.get('bad_divider_arg')))
     ctx.claim('C11.shares', AND(sh), sig='shares', info=info)
     # variables declared only by the glob schema of an outside process
     e0, e1 = ag['m0'].get('env', {}), ag['m1'].get('env', {})
